@@ -147,7 +147,10 @@ Error ArenaBitSet::_resize(Arena& arena, size_t new_size, size_t ideal_capacity,
       num_bits = Support::bit_size_of<BitWord> - start_bit;
     }
 
-    data[idx++] |= pattern << num_bits;
+    // Only bits [start_bit, start_bit + num_bits) are new - old bits must be preserved.
+    BitWord new_bits_mask = ((BitWord(1) << num_bits) - 1u) << start_bit;
+    data[idx] = (data[idx] & ~new_bits_mask) | (pattern & new_bits_mask);
+    idx++;
   }
 
   // Initialize all bit-words after the last bit-word of the old size.
